@@ -471,6 +471,22 @@ def collect_programs(fa, tname, rnd, ngen):
         t = result - numpy_
         return t * t + x_0_ * t
     keyword_like_names.argnames = ["result", "numpy_", "x_0_"]
+    # a user variable that is named like an auto-generated reference name; a named expression that the rewriter replaces by an argument
+    def user_name_like_auto(ctx, x, y):
+        abs_x = (x * y).reference("abs_x")
+        return ctx(abs_x * abs_x + abs(x) * abs(x))
+    user_name_like_auto.argnames = ["x", "y"]
+    def auto_first_then_user_name(ctx, x, y):
+        u = abs(x) * abs(x)
+        v = (x - y).reference("abs_x")
+        return ctx(u + v * v)
+    auto_first_then_user_name.argnames = ["x", "y"]
+    def named_identity_of_argument(ctx, x, y):
+        t = (x * ctx.constant(1, x)).reference("t")
+        return ctx(t * y + t)
+    named_identity_of_argument.argnames = ["x", "y"]
+    directed += [("user-name-like-auto-name", user_name_like_auto, [ft, ft]), ("auto-name-then-user-name", auto_first_then_user_name, [ft, ft]),
+                 ("named-identity-of-argument", named_identity_of_argument, [ft, ft])]
     directed += [("ambiguous-joined-names", ambiguous_names, [ft, ft, ft, ft]), ("argument-names-that-spell-constants", constant_like_names, [ft, ft, ft]),
                  ("argument-names-like-internals", keyword_like_names, [ft, ft, ft])]
     # integer-valued literals meeting in a division / remainder (C++: an int literal on both sides is an integer division)
